@@ -550,6 +550,8 @@ class ClientRequestFraming(FnCheck):
     opaque_ok = True
     target = f'{SC}:SoapClient._send_soap_request'
     container_hints = {'self.request_encodings': 'list', 'self.supported_encodings': 'list'}
+    xml_local = 'xml'
+    self_cls = (SC, 'SoapClient')
     doc = ('SoapClient._send_soap_request, up to the moment the request is handed to the http connection: the header '
            'dict is built for THIS request (a new object - nothing of an earlier request can remain in it); '
            'Content-Encoding is present exactly when some coding the peer accepts (request_encodings) is enabled locally '
@@ -576,7 +578,7 @@ class ClientRequestFraming(FnCheck):
         st.assume(z3.ForAll([jr], z3.Implies(z3.And(0 <= jr, jr < z3.Length(self.req)), Val.is_str(self.req[jr]))))
         self.chunk = b.int('chunk_size')
         self.conn = b.obj('http_connection')
-        self.o = b.obj('self', cls=(SC, 'SoapClient'), request_encodings=req_list, supported_encodings=sup_list,
+        self.o = b.obj('self', cls=self.self_cls, request_encodings=req_list, supported_encodings=sup_list,
                        _chunk_size=self.chunk, _http_connection=self.conn, _netloc=b.str('netloc'))
         b.distinct(self.o, req_list, sup_list, self.conn)
         self.compress = z3.Function('compress', Val, StrS, StrS)
@@ -619,17 +621,23 @@ class ClientRequestFraming(FnCheck):
             if seq is None:      # the loop does not walk a list the contract knows (request_encodings)
                 return z3.BoolVal(False)
             j = z3.Int('j!acc')
-            x = ex_.concrete_kind(st, st.locals['xml'], ('bytes',))
+            x = ex_.concrete_kind(st, st.locals[self.xml_local], ('bytes',))
             xe = x.e if x.kind == 'bytes' else Val.y(x.e)
             return z3.And(z3.ForAll([j], z3.Implies(z3.And(0 <= j, j < k), z3.Not(z3.Select(self.supported, seq[j])))),
                           xe == self.xml.e, *([Val.is_bytes(x.e)] if x.kind != 'bytes' else []))
         return {0: LoopSpec(inv=inv, havoc_heap=[])}
 
+    def finish(self, ex, st0, outcomes, b):
+        ex.oblige(st0, 'some_path_reaches_the_hand_over', z3.BoolVal(bool(getattr(self, '_reached', False))))
+
     def post(self, ex, st0, st, outcome, b):
         req = st.ghost.get('c:request')
         if req is None:
-            ex.oblige(st, 'request_is_handed_to_the_connection', z3.BoolVal(False), info={'outcome': repr(outcome[1])})
+            # no request on this path: only acceptable when the function left with an exception before the hand-over
+            # (e.g. the utf-8 assertion of the asynchronous client); a normal return without a request is not
+            ex.oblige(st, 'request_is_handed_to_the_connection', z3.BoolVal(outcome[0] == 'exc'), info={'outcome': repr(outcome[1])})
             return
+        self._reached = True
         ex.oblige(st, 'request_is_handed_to_the_connection', z3.BoolVal(True))
         body, headers, rst = req
         m = models
@@ -658,3 +666,39 @@ class ClientRequestFraming(FnCheck):
             z3.Implies(chunked, val('transfer-encoding') == Val.str(z3.StringVal('chunked')))))
         ex.oblige(rst, 'content_length_is_the_length_of_the_body_sent', z3.Implies(z3.Not(chunked), z3.And(
             Val.is_str(val('Content-Length')), Val.s(val('Content-Length')) == models.uf('py_str_int', IntS, StrS)(z3.Length(payload)))))
+
+
+@register
+class AsyncClientRequestFraming(ClientRequestFraming):
+    id = 'C17.async_client_request_framing'
+    xml_local = 'xml_request'
+    self_cls = ('sdc11073.pysoap.soapclient_async', 'SoapClientAsync')
+    target = 'sdc11073.pysoap.soapclient_async:SoapClientAsync.async_post_message_to'
+    doc = ('SoapClientAsync.async_post_message_to, up to the hand-over to the aiohttp session: same obligations as '
+           'C17.client_request_framing (new header dict per request, Content-Encoding iff / first acceptable coding, '
+           'body = announced coding of the serialised message, exactly one framing header)')
+
+    def setup(self, b):
+        o, args, kw = super().setup(b)
+        msg = b.obj('created_message')
+        return o, [args[0], msg], {}
+
+    def callees(self, ex):
+        d = super().callees(ex)
+
+        def chunks(ex_, st, args, kwargs):
+            payload = ex_.concrete_kind(st, args[0], ('bytes',))
+            size = args[1] if len(args) > 1 else kwargs['chunk_size']
+            return vbytes(self.chunks(payload.e, as_int(ex_, st, size)))
+
+        def post(ex_, st, args, kwargs):
+            st.ghost['c:request'] = (st.box(kwargs['data']), kwargs['headers'], st)
+            return Raise(ex_.mk_exc('ClientError', 'request handed over (end of the part under contract)'))
+        A = 'sdc11073.pysoap.soapclient_async'
+        d.update({'*.serialize': Pure(lambda e, s, a, k: self.xml, name='CreatedMessage.serialize() -> the xml'),
+                  '*.post': Pure(post, name='ClientSession.post(path, data=, headers=)'),
+                  f'{A}:mk_chunks': Pure(chunks, name='mk_chunks (C17.mk_chunks)'), 'mk_chunks': Pure(chunks, name='mk_chunks (C17.mk_chunks)'),
+                  f'{RD}:mk_chunks': Pure(chunks, name='mk_chunks (C17.mk_chunks)'),
+                  f'{A}:SoapClientAsync.is_closed': Pure(lambda e, s, a, k: vbool(False), name='is_closed (connected)'),
+                  'time.perf_counter': Pure(lambda e, s, a, k: V('real', fresh(RealS, 't')), name='perf_counter')})
+        return d
